@@ -3,6 +3,7 @@
 // parsers on the operation lines described in lean/FcpptModel/Drv/C12.lean and prints the same
 // canonical result lines.  Error message texts are never printed: only the "Line l:c" numbers.
 #include "common/vh.hpp"
+#include "common/route.hpp"
 
 #include <fcppt/make_ref.hpp>
 #include <fcppt/reference_impl.hpp>
@@ -43,6 +44,13 @@
 
 namespace
 {
+// special-member mismatches of the current operation line (appended to the result line by handle())
+inline std::string &sm_mismatch()
+{
+  static std::string m;
+  return m;
+}
+
 // ---------------------------------------------------------------- read-only view of stream::location_
 // The stored location is private and the only public observer, get_position(), changes the istream
 // flags (it clears eof).  To compare the stored location after EVERY operation without disturbing the
@@ -252,7 +260,27 @@ struct kase
         });
   }
 
-  fcppt::parse::location stored_location() const { return (*st).*get_member(loc_tag<Ch>{}); }
+  // the stored location travels through a special member of fcppt::parse::location before it is read (a value: line
+  // AND column must survive; common/route.hpp, notes/sweep.md); the route is a function of the location and the flags
+  fcppt::parse::location stored_location() const
+  {
+    fcppt::parse::location const &want{(*st).*get_member(loc_tag<Ch>{})};
+    unsigned const route{static_cast<unsigned>(want.line().get() * 31U + want.column().get() * 7U + flags())};
+    if (route % 2U == 1U) // every second (location, flags) combination: keeps the long histories fast
+      return want;
+    return vh::sm::checked_eq(
+        sm_mismatch(),
+        "parse::location",
+        route / 2U,
+        want,
+        [&want]
+        {
+          return fcppt::parse::location{
+              fcppt::parse::line{want.line().get() + 1U}, fcppt::parse::column{want.column().get() + 2U}};
+        },
+        [](fcppt::parse::location const &_l)
+        { return std::to_string(_l.line().get()) + ":" + std::to_string(_l.column().get()); });
+  }
 
   obs stamp(obs _o) const
   {
@@ -1000,7 +1028,16 @@ bool is_stateful_name(std::string const &s)
          s == "slit" || s == "scset" || s == "gpar";
 }
 
+std::string handle0(std::vector<std::string> const &t);
+
 std::string handle(std::vector<std::string> const &t)
+{
+  sm_mismatch().clear();
+  std::string const r{handle0(t)};
+  return r + sm_mismatch();
+}
+
+std::string handle0(std::vector<std::string> const &t)
 {
   if (t.empty())
     return "bad-op";
